@@ -297,6 +297,9 @@ CHECKS = {
             C('msgpool', 'TestMsgPool', 'TraceMsg', trivial_len=0, vtimeout=3000),
             R('xpub', 'xpub'), R('xstar', 'xstar'), R('xbus', 'xbus'),
             C('sub', 'TestSub', 'TraceSub', n={'quick': 40, 'thorough': 400}),
+            C('rep', 'TestRep', 'TraceRep', n={'quick': 40, 'thorough': 400}),
+            C('respondent', 'TestRespondent', 'TraceRespondent', n={'quick': 40, 'thorough': 400}),
+            C('req', 'TestReq', 'TraceReq', n={'quick': 30, 'thorough': 300}),
         ],
         'assumptions': ASSUME_COMMON + ['the ledger hooks in message.go (verif tag) report every NewMessage / Clone / Free; released buffers are poisoned by the hook'],
     },
@@ -461,6 +464,7 @@ CHECKS = {
             C('closereal', 'TestCloseReal', 'TraceLifecycle', trivial_len=3),
             T('MC_Handshaker', 'Handshaker.cfg', workers=4),
             T('MC_Inproc', 'Inproc.cfg', workers=4),
+            T('MC_WsListener', 'WsListener.cfg', workers=4),
             C('inproc', 'TestInproc', 'TraceInproc', trivial_len=3, n={'quick': 60, 'thorough': 800}),
             C('handshaker', 'TestHandshaker', 'TraceHandshaker', trivial_len=3, n={'quick': 40, 'thorough': 600}),
         ] + [dict(R(p, e), env={'VERIF_RAW_PROTOS': p, 'VERIF_MIX': 'close'}, n={'quick': 15, 'thorough': 300},
